@@ -732,7 +732,7 @@ def check(prop: str, tier: str, seed: int) -> int:
     scen += witnesses(prop)
     execute_and_judge(run, scen, own)
     conformance(run, scen, run.last_traces, 150 if quick else 1500, rnd)
-    if prop in ("C05", "C08", "C09", "C10"):
+    if prop in ("C05", "C06", "C08", "C09", "C10"):
         from . import checks_api
         checks_api.extend(run, prop, tier, rnd)
     if prop in ("C04", "C10") and not quick:
